@@ -109,6 +109,11 @@ class FakeSock:
                 self.eof = True
                 return
             resp, sw = r
+        if kind == "recv_eof_after":
+            link.stats.fault(kind)
+            link.tlog("xchg", idx, apdu, "recv_eof_after", resp, "%04x" % sw)
+            self.eof = True
+            return
         link.tlog("xchg", idx, apdu, resp, "%04x" % sw)
         self.rbuf += struct.pack(">I", len(resp)) + bytes(resp) + struct.pack(">H", sw)
 
